@@ -78,11 +78,16 @@ void _ZSt20__throw_system_errori(cv_i32 e) { __CPROVER_assert(0, "std::system_er
 /* =========================================================================================================================
  * subscribe_lk(sub, pos) - register at an explicit position.  Precondition (DESIGN): pos <= current stream position (_pos-1);
  * `sub` identifies a subscriber that is not registered yet. */
+/* SUBSCRIBER_ACTIVE = the state in which a subscriber may call next() (precondition of advance_lk / advance_suspend_lk / PROTO_PRE of the protocol
+ * units and of the history lemma): registered, not parked, and not yet at end-of-stream (kicked, or its position still BEHIND the stream).  It is a
+ * POSTCONDITION of every form of subscribe_lk (audit D6: the lemma's hypothesis is established by the contracts, not assumed). */
+#define SUBSCRIBER_ACTIVE (T._used && T._awt == 0 && (T._kicked || T._pos < POS))
 #define SUBSCRIBE_POST(newpos) \
   __CPROVER_ensures(cv_exc_pending == 0) Q_SAME_E Q_INV_E __CPROVER_ensures(rg_n >= __CPROVER_old(rg_n) && rg_n <= __CPROVER_old(rg_n) + 1) \
   __CPROVER_ensures(__CPROVER_return_value < rg_n)                                                                  /* a valid handle  */ \
   __CPROVER_ensures(__CPROVER_return_value == gh_RH ==> !(gh_RH < __CPROVER_old(rg_n) && __CPROVER_old(rg_trk._used)))  /* never a slot that is in use */ \
   __CPROVER_ensures(__CPROVER_return_value == gh_RH ==> (T._used == 1 && T._pos == (newpos) && T._sub == sub && T._awt == 0 && T._kicked == 0)) \
+  __CPROVER_ensures(__CPROVER_return_value == gh_RH ==> SUBSCRIBER_ACTIVE)                      /* the new subscriber may call next(): it stands behind the stream */ \
   __CPROVER_ensures((__CPROVER_return_value != gh_RH && gh_RH < __CPROVER_old(rg_n)) ==> T_SAME)                   /* the others are untouched */ \
   __CPROVER_ensures(T_IN ==> SLOT_INV(T, gh_RH)) __CPROVER_ensures(T_NOLOOP) \
   __CPROVER_ensures((__CPROVER_return_value != gh_RH && T_IN && T._used && rg_other_idx == __CPROVER_return_value) ==> (rg_other._used && rg_other._sub != T._sub))
@@ -105,20 +110,37 @@ SUBSCRIBE_POST(__CPROVER_old(QP->_pos) - 1)
 __CPROVER_ensures(__CPROVER_return_value == gh_RH ==> T_RET)
 ;
 #endif
-/* subscribe_lk(h, sub) - a copy starts at the original's position (and the original is not affected) */
+/* subscribe_lk(h, sub) - "a copy of a subscriber continues independently from the original's position" (and the original is not affected).
+ * The original's position is the position of the last value DELIVERED to it - the copy's first next() yields what the original's next next()
+ * yields.  In terms of the registration: an idle original (between two next()) stands AT its last delivered position; an original that is
+ * PARKED in next() is registered for the position it is waiting for, ONE PAST the last delivered one (it has not received that value: it is not
+ * even published; machine-checked where a subscriber gets parked - PARKED_CHECK in proto_spec.h).  ORIG_DELIVERED is that abstraction.
+ * The copy must be a subscriber that may call next() (SUBSCRIBER_ACTIVE) whenever the original is one (active, or parked) - a copy standing AT the
+ * stream position would run past the stream with its first next(): end-of-stream on an open publisher / the awaited item skipped (audit D6).
+ * Not distinguishable in the state and therefore outside this contract: an original that was kicked WHILE parked (stays one past, _awt cleared). */
+#define ORIG_DELIVERED(s) ((s)._pos - ((s)._awt != 0 ? 1 : 0))
+#define ORIG_MAY_NEXT(s)  ((s)._awt != 0 || (s)._pos < POS)                 /* parked in next(), or idle and behind the stream */
 #ifdef CV_HAS_q_subscribe_lk_copy
-cv_i64 gh_orig_pos;              /* logical variable: position of the original at entry (conditional entry value) */
+cv_i64 gh_orig_pos;              /* logical variable: the original's position (last delivered) at entry (conditional entry value) */
 cv_i64 q_subscribe_lk_copy(QT *this_, cv_i64 h, SUBT *sub)
 __CPROVER_requires(LK_PRE(this_) && h < rg_n && gh_live_h == h)
 __CPROVER_requires(T_NOLOOP && ((T_IN && T._used) ==> T._sub != sub))
-__CPROVER_requires(h == gh_RH ==> (T._used && gh_orig_pos == T._pos))
+__CPROVER_requires(h == gh_RH ==> (T._used && gh_orig_pos == ORIG_DELIVERED(T)))
 __CPROVER_assigns(RG_MODEL_ASSIGNS, gh_allocs, this_->_next_free)
 __CPROVER_ensures(cv_exc_pending == 0) Q_SAME_E Q_INV_E __CPROVER_ensures(rg_n >= __CPROVER_old(rg_n) && rg_n <= __CPROVER_old(rg_n) + 1)
 __CPROVER_ensures(__CPROVER_return_value < rg_n && __CPROVER_return_value != h)
 __CPROVER_ensures(h == gh_RH ==> (T_SAME && __CPROVER_return_value != gh_RH))                                      /* original untouched */
-__CPROVER_ensures((h == gh_RH && rg_other_idx == __CPROVER_return_value) ==> (rg_other._used && rg_other._pos == gh_orig_pos && rg_other._awt == 0 && !rg_other._kicked && rg_other._sub == sub))
+/* tracked slot = the ORIGINAL, the copy is the other slot */
+__CPROVER_ensures((h == gh_RH && rg_other_idx == __CPROVER_return_value) ==> (rg_other._used && rg_other._awt == 0 && !rg_other._kicked && rg_other._sub == sub))
+__CPROVER_ensures(/*C16-copy-position*/ (h == gh_RH && rg_other_idx == __CPROVER_return_value) ==> rg_other._pos == gh_orig_pos)   /* the copy continues from the original's position = the last position delivered to the original (a parked original is registered one past it) */
+__CPROVER_ensures((h == gh_RH && rg_other_idx == __CPROVER_return_value && T_RET_OLD) ==> RETAINS(rg_other._pos, dq_len, POS, MAXL))   /* the window serves the copy if it served the original */
+/* tracked slot = the COPY, the original is the other slot (still cached as the function saw it) */
 __CPROVER_ensures(__CPROVER_return_value == gh_RH ==> !(gh_RH < __CPROVER_old(rg_n) && __CPROVER_old(rg_trk._used)))
 __CPROVER_ensures(__CPROVER_return_value == gh_RH ==> (T._used == 1 && T._sub == sub && T._awt == 0 && T._kicked == 0 && T._pos <= POS))
+__CPROVER_ensures(__CPROVER_return_value == gh_RH ==> (rg_other_idx == h && rg_other._used))
+__CPROVER_ensures(/*C16-copy-position*/ (__CPROVER_return_value == gh_RH && rg_other_idx == h) ==> T._pos == ORIG_DELIVERED(rg_other))   /* the copy continues from the original's position (last delivered; a parked original is registered one past it) */
+__CPROVER_ensures(/*C16-copy-active*/ (__CPROVER_return_value == gh_RH && rg_other_idx == h && ORIG_MAY_NEXT(rg_other)) ==> SUBSCRIBER_ACTIVE)   /* the copy of a subscriber that may call next() / is parked in next() may call next(): it stands BEHIND the stream (hypothesis of the history lemma) */
+__CPROVER_ensures((__CPROVER_return_value == gh_RH && rg_other_idx == h && RETAINS(ORIG_DELIVERED(rg_other), dq_len, POS, MAXL)) ==> T_RET)   /* retention carried over (hypothesis gh_ret0p of the history lemma) */
 __CPROVER_ensures((__CPROVER_return_value != gh_RH && gh_RH < __CPROVER_old(rg_n)) ==> T_SAME)
 __CPROVER_ensures(T_IN ==> SLOT_INV(T, gh_RH)) __CPROVER_ensures(T_NOLOOP)
 ;
@@ -141,7 +163,6 @@ __CPROVER_ensures((h != gh_RH && T_IN && T._used) ==> (rg_other_idx == h && !rg_
 /* =========================================================================================================================
  * advance_lk(h, t) - await_ready(): move to the next item if there is one.  Protocol precondition: the subscriber has not yet
  * received end-of-stream (kicked, or position still behind the stream) and is not parked. */
-#define SUBSCRIBER_ACTIVE (T._used && T._awt == 0 && (T._kicked || T._pos < POS))
 #ifdef CV_HAS_q_advance_lk
 cv_i1 q_advance_lk(QT *this_, cv_i64 h, cv_i32 t)
 __CPROVER_requires(LK_PRE(this_) && h < rg_n)
@@ -184,26 +205,45 @@ __CPROVER_ensures(T_IN ==> SLOT_INV(T, gh_RH))
 ;
 #endif
 
-/* get_value_lk(h, t) - await_resume(): the value at the registered position, or end-of-stream.  Returned std::optional<int> is
- * coerced by the ABI into an i64: payload in bits 0..31, engaged flag in bits 32..39. */
+/* get_value_lk(h, t) - await_resume(): the value the subscriber is handed, or end-of-stream.  Returned std::optional<int> is
+ * coerced by the ABI into an i64: payload in bits 0..31, engaged flag in bits 32..39.
+ * DPOS = the STREAM POSITION OF THE VALUE HANDED OUT (lib/model_pubsub_dpos.c: the deque model notes which element operator[] referenced;
+ * ids are stream positions by Q_STREAM).  The property speaks about that position ("contiguous, duplicate-free run", "strictly
+ * increasing positions", "the newest value"), not about the registration counter; so every clause about a delivered value is stated
+ * over DPOS, and the registration is tied to it: after a delivery the subscriber's position IS the delivered position (it is what
+ * position() reports and what the next next() moves forward from; a registration left behind the delivered position makes the next
+ * next() deliver that position again - audit D5). */
 #define OPT_ENG(r) ((((r) >> 32) & 0xff) != 0)
 #define OPT_VAL(r) ((cv_i32)(r))
+#define DPOS gh_dq_ref_id
 #ifdef CV_HAS_q_get_value_lk
 cv_i64 q_get_value_lk(QT *this_, cv_i64 h, cv_i32 t)
-__CPROVER_requires(LK_PRE(this_) && h < rg_n && h == gh_RH)      /* the tracked slot is the caller's (nothing is written: the assigns clause is the frame for all others) */
-__CPROVER_requires(T._used && T._pos >= 1 && T._pos <= POS)                                                   /* after an advance */
-__CPROVER_assigns(rg_other, rg_other_idx, dq_slot)
-__CPROVER_ensures(cv_exc_pending == 0) Q_SAME_E Q_INV_E __CPROVER_ensures(rg_n == __CPROVER_old(rg_n) && T_SAME && (((__CPROVER_return_value) >> 32) & 0xff) <= 1)
-/* all_values: a value is THE value published at the registered position */
-__CPROVER_ensures((h == gh_RH && ALL_VALUES(t) && OPT_ENG(__CPROVER_return_value)) ==> (!T._kicked && T._pos < POS && (T._pos == gh_P ==> OPT_VAL(__CPROVER_return_value) == gh_sval)))
+__CPROVER_requires(LK_PRE(this_) && h < rg_n && h == gh_RH)      /* the tracked slot is the caller's (the assigns clause is the frame for all others) */
+__CPROVER_requires(T._used && T._pos >= 1 && T._pos <= POS && DPOS == DQ_REF_NONE)                              /* after an advance */
+__CPROVER_assigns(rg_trk, rg_other, rg_other_idx, dq_slot, gh_dq_ref_id)
+__CPROVER_ensures(cv_exc_pending == 0) Q_SAME_E Q_INV_E __CPROVER_ensures(rg_n == __CPROVER_old(rg_n) && (((__CPROVER_return_value) >> 32) & 0xff) <= 1)
+__CPROVER_ensures(T._sub == __CPROVER_old(rg_trk._sub) && T._awt == __CPROVER_old(rg_trk._awt) && T._used == __CPROVER_old(rg_trk._used) && T._kicked == __CPROVER_old(rg_trk._kicked))
+__CPROVER_ensures(!OPT_ENG(__CPROVER_return_value) ==> T._pos == __CPROVER_old(rg_trk._pos))                     /* end-of-stream moves nothing */
+__CPROVER_ensures(T_IN ==> SLOT_INV(T, gh_RH))
+/* every mode: a delivered value is THE value published at the delivered position; that position is retained and not behind the registered one */
+__CPROVER_ensures(OPT_ENG(__CPROVER_return_value) ==> (DQ_INWIN(DPOS) && DPOS >= __CPROVER_old(rg_trk._pos) && (DPOS == gh_P ==> OPT_VAL(__CPROVER_return_value) == gh_sval)))
+__CPROVER_ensures(/*C16-delivered-position*/ OPT_ENG(__CPROVER_return_value) ==> T._pos == DPOS)   /* the subscriber's position is the position of the value delivered (skipping modes: else the same position is delivered again) */
+/* all_values: exactly the registered position (nothing skipped) */
+__CPROVER_ensures((ALL_VALUES(t) && OPT_ENG(__CPROVER_return_value)) ==> (!T._kicked && DPOS == __CPROVER_old(rg_trk._pos) && T._pos < POS))
 /* all_values: end-of-stream only if kicked, or nothing left (position == stream position), or the needed position is no longer retained */
-__CPROVER_ensures((h == gh_RH && ALL_VALUES(t) && !OPT_ENG(__CPROVER_return_value)) ==> (T._kicked || T._pos == POS || POS - T._pos - 1 >= dq_len))
+__CPROVER_ensures((ALL_VALUES(t) && !OPT_ENG(__CPROVER_return_value)) ==> (T._kicked || T._pos == POS || POS - T._pos - 1 >= dq_len))
 /* ... and "no longer retained" means: fallen more than max behind (for a subscriber the window was kept for) */
-__CPROVER_ensures((h == gh_RH && ALL_VALUES(t) && !OPT_ENG(__CPROVER_return_value) && !T._kicked && T._pos != POS && T_RET) ==> POS - T._pos > MAXL)
-/* skipping modes: end-of-stream iff kicked or nothing left */
-__CPROVER_ensures((h == gh_RH && !ALL_VALUES(t)) ==> (OPT_ENG(__CPROVER_return_value) == !(T._kicked || T._pos == POS)))
-__CPROVER_ensures((h == gh_RH && t == 1 && OPT_ENG(__CPROVER_return_value) && gh_P == MAX2(T._pos, POS - dq_len)) ==> OPT_VAL(__CPROVER_return_value) == gh_sval)   /* skip_if_behind: own position or the oldest retained */
-__CPROVER_ensures((h == gh_RH && t == 2 && OPT_ENG(__CPROVER_return_value) && gh_P == POS - 1) ==> OPT_VAL(__CPROVER_return_value) == gh_sval)                       /* skip_to_recent: always the newest */
+__CPROVER_ensures((ALL_VALUES(t) && !OPT_ENG(__CPROVER_return_value) && !T._kicked && T._pos != POS && T_RET) ==> POS - T._pos > MAXL)
+/* skipping modes: end-of-stream iff kicked or nothing left.  NB (audit D, weakness 5): this end-of-stream is NOT sticky.  The precondition
+ * T._pos <= POS ("after an advance", no next() after end-of-stream) keeps it out of every unit, but the code accepts a further next(): advance_lk runs the
+ * registration PAST the stream (max(l._pos+1, ...) with _closed set), `l._pos == _pos` is then false and _q[0] / the clamped _q[size()-1] is handed
+ * out again - the last value re-delivered after end-of-stream (natively: EOF, v, v, v ...; with fix_skip_dup.diff: EOF, v, EOF, v ...).  all_values
+ * (relpos underflows -> end-of-stream) and a kicked subscriber stay at end-of-stream.  Outside the property as stated ("up to its first end-of-stream
+ * indication"), hence a remark, not an obligation. */
+__CPROVER_ensures(!ALL_VALUES(t) ==> (OPT_ENG(__CPROVER_return_value) == !(T._kicked || __CPROVER_old(rg_trk._pos) == POS)))
+__CPROVER_ensures((t == 1 && OPT_ENG(__CPROVER_return_value)) ==> DPOS == MAX2(__CPROVER_old(rg_trk._pos), POS - dq_len))   /* skip_if_behind: its own position, or the oldest retained if that is gone */
+__CPROVER_ensures((t == 2 && OPT_ENG(__CPROVER_return_value)) ==> DPOS == POS - 1)                                       /* skip_to_recent: always the newest */
+__CPROVER_ensures(T_RET_OLD ==> T_RET)
 ;
 #endif
 
@@ -289,6 +329,7 @@ cv_i64 std_min_il(cv_i64 *a, cv_i64 n) {
 #endif
 #ifdef CV_HAS_q_push_lk
 #define PUSH_I0      PS_DEC(__begin0__mem._M_current)
+#ifndef CV_BOUNDED_FALLBACK
 #define CV_LOOP_q_push_lk_0 \
   __CPROVER_assigns(CV_LOOP_LOCALS_q_push_lk_0, rg_trk, rg_other, rg_other_idx, wb_cnt, wb_idx, gh_allocs, this1->_wakeup_buffer) \
   __CPROVER_loop_invariant(PUSH_I0 <= rg_n && __begin0__mem._M_current == PS_ENC(SUBREG, PUSH_I0) && __end0__mem._M_current == PS_ENC(SUBREG, rg_n) && (rg_other_idx == RG_NONE || rg_other_idx < PUSH_I0)) \
@@ -306,7 +347,11 @@ cv_i64 std_min_il(cv_i64 *a, cv_i64 n) {
   __CPROVER_loop_invariant(gh_n_res == __CPROVER_loop_entry(gh_n_res) + PUSH_I1 && gh_n_sp_dtor == __CPROVER_loop_entry(gh_n_sp_dtor) + PUSH_I1) \
   __CPROVER_loop_invariant(gh_aw_state == 1 ==> gh_n_res_AW == __CPROVER_loop_entry(gh_n_res_AW) + (PUSH_I1 > wb_idx ? 1 : 0)) \
   __CPROVER_loop_invariant(gh_aw_state == 0 ==> gh_n_res_AW == __CPROVER_loop_entry(gh_n_res_AW))
+#endif
 void q_push_lk(QT *this_, ULK *lk, cv_i64 count)
+#ifdef CV_BOUNDED_FALLBACK
+__CPROVER_requires(rg_n <= 3 && WB_LEN(&ps_q->_wakeup_buffer) == 0)     /* bounded sibling: loops unwound, <= 3 registrations */
+#endif
 __CPROVER_requires(cv_exc_pending == 0 && this_ == ps_q && lk->_M_device == &this_->_mx && lk->_M_owns == 1 && HELD(this_))
 __CPROVER_requires(count < PS_BIG && Q_CFG && Q_STREAM(count) && POS + count < PS_BIG && dq_len >= MIN2(MINL, POS - 1) + count && dq_len - count <= MAXL && Q_REGS)
 __CPROVER_requires((T_IN ==> SLOT_INV_PUSHPRE(T, gh_RH)) && rg_other_idx == RG_NONE && GH_PIN)
